@@ -153,6 +153,10 @@ def state():
             r = json.load(open(result_file))
             s["compiled"], s["failed"] = set(r["compiled"]), r["failed"]
         else:
+            # (several checks may arrive here at once: each works in a directory of its own and the first to
+            # finish publishes result.json)
+            final_scratch = scratch
+            scratch = "%s.%d" % (scratch, os.getpid())
             shutil.rmtree(scratch, ignore_errors=True)
             lib = os.path.join(scratch, "lib")
             os.makedirs(lib)
@@ -209,8 +213,11 @@ def state():
                     s["compiled"].add(mod)
                 else:
                     s["failed"][mod] = err
-            shutil.rmtree(lib, ignore_errors=True)
-            json.dump({"compiled": sorted(s["compiled"]), "failed": s["failed"]}, open(result_file, "w"), indent=1)
+            shutil.rmtree(scratch, ignore_errors=True)
+            os.makedirs(final_scratch, exist_ok=True)
+            tmpf = result_file + ".%d" % os.getpid()
+            json.dump({"compiled": sorted(s["compiled"]), "failed": s["failed"]}, open(tmpf, "w"), indent=1)
+            os.replace(tmpf, result_file)
     s["seconds"] = round(time.time() - t0, 2)
     _STATE["s"] = s
     return s
